@@ -29,6 +29,14 @@ keyword vs positional arguments or on whether a sub-expression has a name.
             key K with `name=K` (the two cooperating sites agree on what identifies a stream).
   C06.TOTAL no step's apply() can raise (shared with C13.TOTAL): FormulaEngine._run drops the round on any
             exception after every input was consumed, i.e. the timestamp would be skipped.
+  C06.SEND  the loop that drives a formula (FormulaEngine._run, helpers read in) sends the sample of this round, once:
+            no send is reachable from the exception edge of `await evaluator.apply()` before the next apply(), the
+            argument of send is the value this round's apply() returned, one send per evaluation.
+  C06.FRESH every sample fetch_next_with_fallback() hands to a round comes from an awaited receive() of this call or
+            from the fallback synchronisation called in it -- never from state kept from an earlier round.
+
+C06.3PH also demands the alignment in EVERY round (no path from the start of a round to the sample avoids the
+reference, unless a guard over the round's three timestamps proves them equal).
 
 Seeded controls are cut out of the live source at structurally located anchors (build_controls).
 """
@@ -42,10 +50,10 @@ from ..engine.normalize import positional
 from ..engine.report import AnalysisError, Run
 from ..engine.resolver import Program, contains_await
 from ..engine.util import find_calls, method_call, nodes_with_call, u
-from ._c06_util import (Flow, Org, Tri, cmp_eval, first_run_sync_name, resyncs_on_divergence, indent_of, inline_all, validity_name, lifted, names_eq, pruned, result_sites, seg, spliced, src_patch, stmt_patch,
+from ._c06_util import (Flow, Org, Tri, cmp_eval, engine_loop, first_run_sync_name, resyncs_on_divergence, indent_of, inline_all, validity_name, lifted, names_eq, pruned, result_sites, seg, spliced, src_patch, stmt_patch,
                         transitive_helpers, tri, truth_atom, unawait)
 from .c13 import check_fetcher, check_steps, engine_drops_round, step_classes
-from .c19 import check_plain_primary
+from .c19 import check_plain_primary, fallback_sync_name
 from .c19 import check_sync as fallback_sync
 
 EVAL = "timeseries.formula_engine._formula_evaluator"
@@ -1061,6 +1069,115 @@ def check_sync(run: Run, prog: Program, rule: str = "C06.SYNC") -> None:
 
 
 # ---------------------------------------------------------------------------------------------
+def check_send(run: Run, prog: Program) -> None:
+    """C06.SEND ("... advance by exactly one input step with none skipped, repeated or reordered"): what the loop that
+    drives a formula hands to its channel is the sample of *this* round, once.
+
+      * a round whose evaluation raised sends nothing: no `send` is reachable from the exception edge of
+        `await evaluator.apply()` before the next apply() (a try/except/else flattened without `continue`, a `finally`
+        that sends, a handler that falls through);
+      * the argument of every `send` is the value this round's apply() returned (not a local left over from an
+        earlier round, not state of the engine);
+      * between two evaluations a sample is sent at most once.
+    (That every evaluated sample IS sent is C06.TOTAL.)"""
+    lp = engine_loop(prog)
+    raw, fl, cfg, a = lp.raw, lp.fl, lp.cfg, lp.a
+    run.analysed(raw.qual)
+    if not lp.sends:
+        return  # reported by C06.TOTAL (every evaluated sample is sent)
+    wit = None
+    for m, lab in lp.exc_targets:
+        w = cfg.path(m, lp.send_nodes, avoid=[a])
+        if w is not None:
+            wit = wit or ([(a, "")] + [(m, lab)] + w[1:])
+    culprit = cfg.nodes[wit[-1][0]].ast if wit else raw.node
+    run.check(wit is None, "C06.SEND", raw.qual, "a round whose evaluation raised sends nothing",
+              f"`{u(culprit)[:60]}` is reached after `{u(lp.apply)}` raised, without a new evaluation in between: the local still "
+              "holds the sample of the previous round, so the timestamp already emitted is emitted a second time (with the value "
+              "of the old timestamp) whenever a round fails -- e.g. at a fallback take-over, when a fetch returns None -- and "
+              "if the very first round fails the name is unbound and the engine task dies.  (The `else:` of a "
+              "try/except/else dropped without a `continue` in the handler, a send moved into `finally`, a handler that "
+              "falls through are the same mistake.)", node=culprit, file=raw.file, path=cfg.describe_path(wit))
+    stale = [(nid, c) for nid, c in lp.sends if not (len(c.args) + len(c.keywords) == 1 and fl.is_node(
+        (list(c.args) + [k.value for k in c.keywords])[0], lp.apply, nid))]
+    if wit is None:
+        run.check(not stale, "C06.SEND", raw.qual, "what is sent is the value this round's apply() returned",
+                  (f"`{u(stale[0][1])[:60]}` does not send (only) the sample returned by this round's `{u(lp.apply)}`: "
+                   + "; ".join(o.text() for o in fl.origin((list(stale[0][1].args) + [k.value for k in stale[0][1].keywords] + [stale[0][1]])[0], stale[0][0]))[:160]
+                   + " -- a sample of another round (or none of the evaluator's) reaches the output") if stale else "",
+                  node=(stale[0][1] if stale else raw.node), file=raw.file)
+    twice = None
+    for s_ in lp.send_nodes:
+        twice = twice or cfg.path(s_, lp.send_nodes, avoid=[a], include_src=False)
+    run.check(twice is None, "C06.SEND", raw.qual, "one send per evaluation",
+              "after a sample was sent another send is reachable before the next evaluation: the same timestamp is emitted twice",
+              node=raw.node, file=raw.file, path=cfg.describe_path(twice))
+
+
+def check_fresh(run: Run, prog: Program) -> None:
+    """C06.FRESH ("none skipped, repeated ..."): every sample the fallback-aware fetch hands to a round was read from
+    a stream *in this very call* -- the awaited `receive()` of the primary or of the fallback -- or is the result of
+    the fallback synchronisation called in this call (which relates its cached sample to the primary sample just
+    read: C06.FSYNC).  State the fetcher kept from an earlier round (an attribute of `self` read here) is not a
+    sample of this round: it was handed out, or deliberately withheld, before."""
+    raw = prog.func(f"{MF}.fetch_next_with_fallback")
+    run.analysed(raw.qual)
+    sname, vname = fallback_sync_name(prog), validity_name(prog)
+    fn = inline_all(prog, raw, stop={sname} | ({vname} if vname else set()))
+    fl = Flow(prog, fn)
+    cfg = fl.cfg
+    fb = fn.params[1] if len(fn.params) > 1 else None
+
+    def fresh(o: Org) -> bool:
+        c = o.call()
+        if o.kind != "expr" or c is None or not isinstance(o.node, ast.Await) or not isinstance(c.func, ast.Attribute):
+            return False
+        if c.func.attr == sname and u(c.func.value) == "self":
+            return True
+        if c.func.attr != "receive":
+            return False
+        if u(c.func.value) == "self._stream":
+            return True
+        src = o.flow.origin(c.func.value, o.nid)
+        return bool(src) and all(q.kind == "param" and q.name == fb for q in src)
+
+    def leaves(e: ast.AST, nid: int, fuel: int = 8) -> list[Org]:
+        """Origins of `e`, conditional expressions and `a or b` read alternative by alternative."""
+        out: list[Org] = []
+        for o in fl.origin(e, nid, through_helpers=False):
+            x = o.node if o.kind == "expr" else None
+            if fuel > 0 and isinstance(x, ast.IfExp) and o.nid is not None:
+                out += leaves(x.body, o.nid, fuel - 1) + leaves(x.orelse, o.nid, fuel - 1)
+            elif fuel > 0 and isinstance(x, ast.BoolOp) and o.nid is not None:
+                for v in x.values:
+                    out += leaves(v, o.nid, fuel - 1)
+            else:
+                out.append(o)
+        return out
+
+    n = 0
+    for r in fl.returns():
+        val = cfg.nodes[r].ast.value  # type: ignore[union-attr]
+        if val is None:
+            continue
+        n += 1
+        bad = [o for o in leaves(val, r) if not fresh(o)]
+        kept = [o for o in bad if o.kind == "expr" and isinstance(o.node, ast.Attribute) and u(o.node.value) == "self"]
+        what = ", ".join(sorted({u(o.node) if o.node is not None else o.text() for o in bad}))
+        run.check(not bad, "C06.FRESH", raw.qual, f"return at line {getattr(cfg.nodes[r].ast, 'lineno', 0)}: a sample read in this call",
+                  f"`{u(cfg.nodes[r].ast)[:70]}` hands the round `{what}`, which was not read from a stream in this call"
+                  + (" but kept in the fetcher from an earlier round: that sample was already returned for its own timestamp (the "
+                     "synchronisation returns its cached sample), so after this return the term delivers timestamp T a second time "
+                     "-- a single-input formula emits T twice, and with several inputs the term lags one step until the evaluator "
+                     "re-synchronises" if kept else "")
+                  + " (every sample of a round comes from `await <stream>.receive()` in that round, or from the fallback "
+                  "synchronisation that compares its cached sample with the primary sample of the round)",
+                  node=cfg.nodes[r].ast, file=raw.file, instance=f"{raw.qual}: return #{n} hands out a sample read in this call")
+    if n < 2:
+        raise AnalysisError(f"{raw.qual}: only {n} value return(s) found")
+
+
+# ---------------------------------------------------------------------------------------------
 def check_3ph(run: Run, prog: Program) -> None:
     """C06.3PH: the three per-phase engines synchronise only their own inputs, so their outputs may start at
     different timestamps.  On every path of a round that reaches the send, the three samples whose values are
@@ -1168,12 +1285,63 @@ def check_3ph(run: Run, prog: Program) -> None:
                   file=raw.file, path=cfg.describe_path(wit))
     # alignment
     ok = len(refs) == 1
+    node3: ast.AST = raw.node
     detail = ("the three per-phase samples are combined as they arrive: nothing establishes that they carry the same timestamp "
               "(the per-phase engines synchronise only their own inputs and may start at different timestamps, so the sample "
               "stamped T can carry another phase's value of a later step, for ever) -- expected the maximum of the three "
               "timestamps as reference and a drain of every phase that is behind it")
     if ok:
         rn = refs[0][0]
+        # the alignment is established in EVERY round: no way from the start of a round to the sample that does not
+        # take the reference (a flag / first-round guard around the reference and the drains leaves later rounds zipped
+        # by arrival order again)
+        skip = cfg.path(first[0], [cn], avoid=[rn], edge_ok=normal) if first[0] != rn else None
+        if skip is not None:
+            # a guard over this round's three timestamps may skip the alignment when it establishes that they are equal: the
+            # skip must then be impossible whenever some phase is behind the newest one (flags, counters stay undecided)
+            def skew(ts: tuple[int, int, int]) -> Any:
+                def val(e: ast.AST, nid: int | None) -> int | None:
+                    k = ts_phase(e, nid)
+                    return None if k is None else ts[k]
+
+                def atom(e: ast.AST, nid: int) -> Tri:
+                    if not (isinstance(e, ast.Compare) and len(e.ops) == 1):
+                        return None
+                    a_, b_ = e.left, e.comparators[0]
+                    va, vb = val(a_, nid), val(b_, nid)
+                    if va is not None and vb is not None:
+                        return cmp_eval(e.ops[0], va, vb)
+                    for x, y, flip in ((a_, b_, False), (b_, a_, True)):
+                        if isinstance(x, ast.Call) and u(x.func) == "len" and len(x.args) == 1 and isinstance(y, ast.Constant) \
+                                and isinstance(y.value, int) and not isinstance(y.value, bool):
+                            o = fl.origin1(x.args[0], nid)
+                            c0, n0 = (o.node, o.nid) if o is not None and o.kind == "expr" else (x.args[0], nid)
+                            if isinstance(c0, ast.Call) and u(c0.func) in ("set", "frozenset") and len(c0.args) == 1:
+                                c0 = c0.args[0]
+                            if isinstance(c0, (ast.Set, ast.Tuple, ast.List)) and len(c0.elts) == 3:
+                                vs = [val(el, n0) for el in c0.elts]
+                                if None not in vs:
+                                    return cmp_eval(e.ops[0], y.value, len(set(vs))) if flip else cmp_eval(e.ops[0], len(set(vs)), y.value)
+                    return None
+                return pruned(cfg, lifted(fl, atom))
+
+            if all(cfg.path(first[0], [cn], avoid=[rn], edge_ok=skew(ts)) is None
+                   for ts in ((0, 1, 1), (1, 0, 1), (1, 1, 0), (0, 0, 1), (0, 1, 0), (1, 0, 0))):
+                skip = None
+        if skip is not None:
+            ok = False
+            guards = [cfg.nodes[n_].ast for n_, lab in skip if cfg.nodes[n_].kind == "test" and cfg.nodes[n_].ast is not None
+                      and rn in cfg.reachable([n_], avoid=[h.id], edge_ok=normal)]
+            detail = ("the three phases are aligned in some rounds only: a round can build its sample without taking the reference "
+                      "max(the three timestamps) and draining the phases behind it"
+                      + (f" (when `{u(guards[-1])[:60]}` goes the other way)" if guards else "")
+                      + ".  Aligning once is not enough -- the per-phase engines drop a round whenever their evaluation raises "
+                      "(e.g. at a fallback take-over) or re-synchronise their inputs, so one phase can skip a timestamp later: from "
+                      "then on that phase is one sample ahead and every sample stamped T carries its value of T+1, for ever "
+                      "(an alignment guarded by a `synchronized` flag, by a round counter or done before the loop are the same mistake)")
+            if guards and hasattr(guards[-1], "lineno"):
+                node3 = guards[-1]
+    if ok:
         for i in sorted(rx):
             nodes = [nid for nid, _c in recv[i]]
             initial = [n for n in nodes if cfg.path(n, [rn], edge_ok=normal) is not None and cfg.path(rn, [n], avoid=[h.id], edge_ok=normal) is None]
@@ -1198,7 +1366,7 @@ def check_3ph(run: Run, prog: Program) -> None:
             if not ok:
                 break
     run.check(ok, "C06.3PH", raw.qual, "every phase drained up to max(the three timestamps) before the sample is built", detail,
-              node=raw.node, file=raw.file)
+              node=node3, file=raw.file)
     # the sample: values in phase order from the final samples, stamped with one of them (after the drains) or the reference
     a = positional(cc, ["timestamp", "value_p1", "value_p2", "value_p3"])
 
@@ -1433,14 +1601,69 @@ def build_controls(prog: Program) -> list[tuple[str, str, str, str, str]]:
     for st_ in (x for x in ast.walk(ad.node) if isinstance(x, ast.Expr) and isinstance(x.value, ast.Call) and method_call(x.value, None, "append")):
         add("Adder does not push its result", STEPS, stmt_patch(ad, st_, lambda t: f"{indent_of(t)}pass\n"), "C06.TOTAL")
         break
-    # TOTAL: Divider without its zero-divisor arm
+    # TOTAL: Divider without its zero-divisor arm -- a defect of this property only while the engine loop drops the round of
+    # an evaluation that raised (otherwise the control has no anchor on this tree and is left out)
     dv = prog.func(f"{STEPS}:Divider.apply")
-    for x in (x for x in ast.walk(dv.node) if isinstance(x, ast.IfExp) and isinstance(x.orelse, ast.BinOp) and isinstance(x.orelse.op, ast.Div)):
+    try:
+        drops = engine_drops_round(Run("C06", "quick", 0), prog, rule=None)
+    except AnalysisError:
+        drops = False
+    for x in (x for x in ast.walk(dv.node) if drops and isinstance(x, ast.IfExp) and isinstance(x.orelse, ast.BinOp) and isinstance(x.orelse.op, ast.Div)):
         txt, keep = seg(dv.module, x), seg(dv.module, x.orelse)
         add("Divider raises on a zero divisor", STEPS, stmt_patch(dv, x, lambda t, txt=txt, keep=keep: t.replace(txt, keep, 1)), "C06.TOTAL")
         break
+    # SEND: the sample of the previous round is sent again after a failed evaluation -- try/except/else flattened without a
+    # `continue` (or, where the loop already is flat, the handler's `continue` dropped)
+    try:
+        gt = engine_loop(prog).guarding_try()
+    except AnalysisError:
+        gt = None
+    if gt is not None:
+        holder, t = gt
+        src_lines = holder.module.source.splitlines(keepends=True)
+        is_send = lambda st: any(isinstance(c, ast.Call) and method_call(c, None, "send") for c in ast.walk(st))  # noqa: E731
+        if t.orelse and any(is_send(st) for st in t.orelse) and not t.finalbody:
+            first_, last_ = t.orelse[0], t.orelse[-1]
+            else_ln = next((ln for ln in range(first_.lineno - 1, t.lineno, -1) if src_lines[ln - 1].strip() == "else:"), None)
+            if else_ln is not None:
+                shift = first_.col_offset - t.col_offset
+
+                def flatten(txt: str, shift: int = shift) -> str:
+                    body = txt.splitlines(keepends=True)[1:]
+                    return "".join(l[shift:] if l[:shift].strip() == "" else l for l in body)
+
+                add("send after a failed evaluation", ENGINE, src_patch(holder.module, else_ln, last_.end_lineno or last_.lineno, flatten), "C06.SEND")
+        else:
+            for h in t.handlers:
+                if h.body and isinstance(h.body[-1], ast.Continue) and (h.type is None or u(h.type).split(".")[-1] in ("Exception", "BaseException")):
+                    add("send after a failed evaluation", ENGINE, stmt_patch(holder, h.body[-1], lambda tx: f"{indent_of(tx)}pass\n"), "C06.SEND")
+                    break
+    # FRESH: the primary-error path hands out the cached fallback sample instead of reading the fallback stream
+    fwf = prog.func(f"{MF}.fetch_next_with_fallback")
+    for hd in (h for t_ in ast.walk(fwf.node) if isinstance(t_, ast.Try) for h in t_.handlers):
+        ret = next((r_ for r_ in hd.body if isinstance(r_, ast.Return) and isinstance(r_.value, ast.Await)
+                    and isinstance(r_.value.value, ast.Call) and method_call(r_.value.value, None, "receive")), None)
+        if ret is not None:
+            add("cached fallback sample handed out again", STEPS, stmt_patch(
+                fwf, ret, lambda tx: f"{indent_of(tx)}return self._latest_fallback_sample\n"), "C06.FRESH")
+            break
+    # 3PH: the phases are aligned until they were in step once, then zipped as they arrive
+    loop3 = next((w for w in ast.walk(ph.node) if isinstance(w, ast.While) and isinstance(w.test, ast.Constant)
+                  and any(d is x for d in drains for x in ast.walk(w))), None)
+    if loop3 is not None and mx is not None and drains and all(d.col_offset == mx.col_offset for d in drains) and mx.lineno > loop3.lineno:
+        lo3, hi3 = mx.lineno, max(w.end_lineno or w.lineno for w in drains)
+        ind_w, ind_b = " " * loop3.col_offset, " " * mx.col_offset
+
+        def once(txt: str, lo3: int = lo3, hi3: int = hi3, base: int = loop3.lineno, ind_w: str = ind_w, ind_b: str = ind_b) -> str:
+            ls = txt.splitlines(keepends=True)
+            a_, b_ = lo3 - base, hi3 - base + 1
+            block = "".join(("    " + l if l.strip() else l) for l in ls[a_:b_])
+            return (f"{ind_w}_aligned_once = False\n" + "".join(ls[:a_]) + f"{ind_b}if not _aligned_once:\n" + block
+                    + f"{ind_b}    _aligned_once = True\n" + "".join(ls[b_:]))
+
+        add("phases aligned only until they were in step once", ENGINE, src_patch(ph.module, loop3.lineno, hi3, once), "C06.3PH")
     if len(out) < 6:
-        raise AnalysisError(f"C06: only {len(out)} of 18 seeded controls could be derived from the source ({[o[0] for o in out]})")
+        raise AnalysisError(f"C06: only {len(out)} of 21 seeded controls could be derived from the source ({[o[0] for o in out]})")
     return out
 
 
@@ -1459,6 +1682,8 @@ def run_rules(run: Run, prog: Program) -> None:
         check_emit(run, prog, rnd)
         check_names(run, prog, rnd)
     check_one(run, prog)
+    check_fresh(run, prog)
+    check_send(run, prog)
     check_plain_primary(run, prog, "C06.ONE")
     check_sync(run, prog)
     fallback_sync(run, prog, rule="C06.FSYNC")
@@ -1484,7 +1709,13 @@ def check(run: Run, prog: Program, tier: str) -> str:
              "after one sample was consumed from every input, i.e. the timestamp is skipped (shared with C13.TOTAL)")
     run.rule("C06.NAME", "a finished fetch task is mapped back to its stream by task name: apply() names the task of the fetcher "
              "stored under key K with K, the key the synchronisation looks up")
+    run.rule("C06.SEND", "the loop that drives a formula sends the sample of this round, once: nothing is sent after an evaluation "
+             "that raised, the argument of send is the value this round's apply() returned, one send per evaluation")
+    run.rule("C06.FRESH", "every sample the fallback-aware fetch hands to a round was read from a stream in this call (or is the "
+             "result of the fallback synchronisation called in it), never state kept from an earlier round")
     run_rules(run, prog)
+    run.floor("C06.SEND", 3)
+    run.floor("C06.FRESH", 2)
     run.floor("C06.NAME", 1)
     run.floor("C06.ALL", 3)
     run.floor("C06.ONE", 15)
